@@ -255,3 +255,64 @@ def _w_fitness(attr):
 
 for _a in ("utilisation", "allocation"):
     contract(WGT + ":WeightedComposite.%s.getter" % _a, props=["C07"])(_w_fitness(_a))
+
+
+# ---- native inputs (replay / native search of refutations) -----------------------------------------------------------------------
+# values are dyadic rationals and the total weight / child count a power of two, so that Python's float results ARE the real-number
+# results the clauses speak about (the proved clauses are exact over reals; a concrete run must not differ by rounding)
+def _gen_child(rng):
+    from pyvc.replay import stub_class
+
+    o = stub_class(Child)()
+    for f in ("supply", "utilisation", "allocation"):
+        object.__setattr__(o, f, rng.choice([0, 0.25, 0.5, 1, 1, 2, 4]))
+    object.__setattr__(o, "demand", rng.choice([0, 1, 2, 3.5]))
+    o._stores.clear()
+    return o
+
+
+def _pow2(x):
+    return x > 0 and (x * 1024) == int(x * 1024) and (int(x * 1024) & (int(x * 1024) - 1)) == 0
+
+
+def _gen_weighted(rng):
+    import importlib
+
+    real = getattr(importlib.import_module(WGT), "WeightedComposite")
+    for _ in range(200):
+        w = rng.choice(WEIGHTS)
+        kids = [_gen_child(rng) for _ in range(rng.choice([0, 1, 2, 3, 4]))]
+        total = sum(getattr(k, w) for k in kids)
+        if total == 0 or _pow2(total):
+            break
+    o = object.__new__(real)
+    object.__setattr__(o, "_demand", rng.choice([0, 1, 2, 4, 8]))
+    object.__setattr__(o, "_weight", w)
+    object.__setattr__(o, "children", kids)
+    return o
+
+
+def _gen_uniform(rng):
+    import importlib
+
+    real = getattr(importlib.import_module(UNI), "UniformComposite")
+    o = object.__new__(real)
+    object.__setattr__(o, "_demand", rng.choice([0, 1, 2, 4, 8]))
+    object.__setattr__(o, "children", [_gen_child(rng) for _ in range(rng.choice([0, 1, 2, 4, 4]))])
+    return o
+
+
+def _install_generators():
+    from pyvc.contracts import REGISTRY
+
+    for grp in REGISTRY.values():
+        for key, con in grp.items():
+            if key.startswith(WGT + ":WeightedComposite.") or key.startswith(UNI + ":UniformComposite."):
+                mk = _gen_weighted if key.startswith(WGT) else _gen_uniform
+                if "value" in con.params:
+                    con.ns["gen_args"] = lambda rng, mk=mk: {"self": mk(rng), "value": rng.choice([0, 1, 2, 4, 6, 8])}
+                else:
+                    con.ns["gen_args"] = lambda rng, mk=mk: {"self": mk(rng)}
+
+
+_install_generators()
